@@ -1,0 +1,12 @@
+//go:build !verif
+
+// Package verifhook provides named instrumentation points used by external
+// verification harnesses. Without the "verif" build tag Enabled is a false
+// constant, so every `if verifhook.Enabled { ... }` block is compiled out.
+package verifhook
+
+// Enabled reports whether instrumentation points are compiled in.
+const Enabled = false
+
+// Point is a no-op without the verif build tag.
+func Point(name string, args ...interface{}) error { return nil }
